@@ -6,30 +6,589 @@ open PbVerif.Morph
 /-- pointwise order on finite signals of the same length -/
 def LeL (a b : List Rat) : Prop := a.length = b.length ∧ ∀ i, i < a.length → a.getD i 0 ≤ b.getD i 0
 
-theorem erode_length (h : Nat) (f : List Rat) : (erode h f).length = f.length := by sorry
-theorem dilate_length (h : Nat) (f : List Rat) : (dilate h f).length = f.length := by sorry
-theorem opening_length (h : Nat) (f : List Rat) : (opening h f).length = f.length := by sorry
+theorem erode_length (h : Nat) (f : List Rat) : (erode h f).length = f.length := by simp [erode]
+theorem dilate_length (h : Nat) (f : List Rat) : (dilate h f).length = f.length := by simp [dilate]
+theorem opening_length (h : Nat) (f : List Rat) : (opening h f).length = f.length := by
+  simp [opening, erode_length, dilate_length]
 
-/-- reflection commutes with symmetric-window erosion/dilation: the reflected extension of the
-eroded finite signal is the erosion of the reflected extension -/
-theorem ext_erode (h : Nat) (f : List Rat) (hf : f ≠ []) (i : Int) : ext (erode h f) i = winMin (ext f) h i := by sorry
-theorem ext_dilate (h : Nat) (f : List Rat) (hf : f ≠ []) (i : Int) : ext (dilate h f) i = winMax (ext f) h i := by sorry
+/-! ### fold lemmas -/
+theorem foldl_min_le_init (l : List Nat) (a : Rat) (b : Nat → Rat) :
+    l.foldl (fun acc k => min acc (b k)) a ≤ a := by
+  induction l generalizing a with
+  | nil => simp
+  | cons x xs ih => simp only [List.foldl]; have := ih (min a (b x)); grind
 
-theorem opening_le (h : Nat) (f : List Rat) : LeL (opening h f) f := by sorry
-theorem opening_idem (h : Nat) (f : List Rat) : opening h (opening h f) = opening h f := by sorry
+theorem foldl_min_le_mem (l : List Nat) (a : Rat) (b : Nat → Rat) (k : Nat) (hk : k ∈ l) :
+    l.foldl (fun acc k => min acc (b k)) a ≤ b k := by
+  induction l generalizing a with
+  | nil => cases hk
+  | cons x xs ih =>
+    simp only [List.foldl]
+    rcases List.mem_cons.mp hk with rfl | h
+    · have := foldl_min_le_init xs (min a (b k)) b; grind
+    · exact ih _ h
+
+theorem le_foldl_min (l : List Nat) (a : Rat) (b : Nat → Rat) (c : Rat) (ha : c ≤ a)
+    (hb : ∀ k ∈ l, c ≤ b k) : c ≤ l.foldl (fun acc k => min acc (b k)) a := by
+  induction l generalizing a with
+  | nil => simpa using ha
+  | cons x xs ih =>
+    simp only [List.foldl]
+    apply ih
+    · have := hb x (by simp); grind
+    · intro k hk; exact hb k (by simp [hk])
+
+theorem init_le_foldl_max (l : List Nat) (a : Rat) (b : Nat → Rat) :
+    a ≤ l.foldl (fun acc k => max acc (b k)) a := by
+  induction l generalizing a with
+  | nil => simp
+  | cons x xs ih => simp only [List.foldl]; have := ih (max a (b x)); grind
+
+theorem mem_le_foldl_max (l : List Nat) (a : Rat) (b : Nat → Rat) (k : Nat) (hk : k ∈ l) :
+    b k ≤ l.foldl (fun acc k => max acc (b k)) a := by
+  induction l generalizing a with
+  | nil => cases hk
+  | cons x xs ih =>
+    simp only [List.foldl]
+    rcases List.mem_cons.mp hk with rfl | h
+    · have := init_le_foldl_max xs (max a (b k)) b; grind
+    · exact ih _ h
+
+theorem foldl_max_le (l : List Nat) (a : Rat) (b : Nat → Rat) (c : Rat) (ha : a ≤ c)
+    (hb : ∀ k ∈ l, b k ≤ c) : l.foldl (fun acc k => max acc (b k)) a ≤ c := by
+  induction l generalizing a with
+  | nil => simpa using ha
+  | cons x xs ih =>
+    simp only [List.foldl]
+    apply ih
+    · have := hb x (by simp); grind
+    · intro k hk; exact hb k (by simp [hk])
+
+theorem winMin_le (g : Int → Rat) (h : Nat) (i j : Int) (h1 : -(h:Int) ≤ j) (h2 : j ≤ h) :
+    winMin g h i ≤ g (i + j) := by
+  unfold winMin winFold
+  by_cases hj : j = -(h:Int)
+  · have := foldl_min_le_init (List.range (2*h)) (g (i - h)) (fun k => g (i - (h:Int) + 1 + (k:Int)))
+    have e : i + j = i - (h:Int) := by omega
+    rw [e]; exact this
+  · have hk : (j + h - 1).toNat ∈ List.range (2 * h) := by
+      simp only [List.mem_range]; omega
+    have := foldl_min_le_mem (List.range (2*h)) (g (i - h)) (fun k => g (i - (h:Int) + 1 + (k:Int))) _ hk
+    have e : i - (h:Int) + 1 + ((j + h - 1).toNat : Int) = i + j := by omega
+    simp only [e] at this; exact this
+
+theorem le_winMin (g : Int → Rat) (h : Nat) (i : Int) (c : Rat)
+    (H : ∀ j : Int, -(h:Int) ≤ j → j ≤ h → c ≤ g (i + j)) : c ≤ winMin g h i := by
+  unfold winMin winFold
+  apply le_foldl_min
+  · have := H (-(h:Int)) (by omega) (by omega)
+    have e : i + -(h:Int) = i - (h:Int) := by omega
+    rw [e] at this; exact this
+  · intro k hk
+    simp only [List.mem_range] at hk
+    have := H (-(h:Int) + 1 + k) (by omega) (by omega)
+    have e : i + (-(h:Int) + 1 + (k:Int)) = i - (h:Int) + 1 + k := by omega
+    rw [e] at this; exact this
+
+theorem le_winMax (g : Int → Rat) (h : Nat) (i j : Int) (h1 : -(h:Int) ≤ j) (h2 : j ≤ h) :
+    g (i + j) ≤ winMax g h i := by
+  unfold winMax winFold
+  by_cases hj : j = -(h:Int)
+  · have := init_le_foldl_max (List.range (2*h)) (g (i - h)) (fun k => g (i - (h:Int) + 1 + (k:Int)))
+    have e : i + j = i - (h:Int) := by omega
+    rw [e]; exact this
+  · have hk : (j + h - 1).toNat ∈ List.range (2 * h) := by
+      simp only [List.mem_range]; omega
+    have := mem_le_foldl_max (List.range (2*h)) (g (i - h)) (fun k => g (i - (h:Int) + 1 + (k:Int))) _ hk
+    have e : i - (h:Int) + 1 + ((j + h - 1).toNat : Int) = i + j := by omega
+    simp only [e] at this; exact this
+
+theorem winMax_le (g : Int → Rat) (h : Nat) (i : Int) (c : Rat)
+    (H : ∀ j : Int, -(h:Int) ≤ j → j ≤ h → g (i + j) ≤ c) : winMax g h i ≤ c := by
+  unfold winMax winFold
+  apply foldl_max_le
+  · have := H (-(h:Int)) (by omega) (by omega)
+    have e : i + -(h:Int) = i - (h:Int) := by omega
+    rw [e] at this; exact this
+  · intro k hk
+    simp only [List.mem_range] at hk
+    have := H (-(h:Int) + 1 + k) (by omega) (by omega)
+    have e : i + (-(h:Int) + 1 + (k:Int)) = i - (h:Int) + 1 + k := by omega
+    rw [e] at this; exact this
+
+/-! ### transport of windows -/
+theorem winMin_translate (g : Int → Rat) (p : Int) (hp : ∀ k, g (k + p) = g k) (h : Nat) (i : Int) :
+    winMin g h (i + p) = winMin g h i := by
+  apply Rat.le_antisymm
+  · apply le_winMin; intro j h1 h2
+    have := winMin_le g h (i + p) j h1 h2
+    have e : i + p + j = (i + j) + p := by omega
+    rw [e, hp] at this; exact this
+  · apply le_winMin; intro j h1 h2
+    have := winMin_le g h i j h1 h2
+    have e : i + p + j = (i + j) + p := by omega
+    rw [e, hp]; exact this
+
+theorem winMin_mirror (g : Int → Rat) (hp : ∀ k, g (-1 - k) = g k) (h : Nat) (i : Int) :
+    winMin g h (-1 - i) = winMin g h i := by
+  apply Rat.le_antisymm
+  · apply le_winMin; intro j h1 h2
+    have := winMin_le g h (-1 - i) (-j) (by omega) (by omega)
+    have e : -1 - i + -j = -1 - (i + j) := by omega
+    rw [e, hp] at this; exact this
+  · apply le_winMin; intro j h1 h2
+    have := winMin_le g h i (-j) (by omega) (by omega)
+    have e : -1 - i + j = -1 - (i + -j) := by omega
+    rw [e, hp]; exact this
+
+theorem winMax_translate (g : Int → Rat) (p : Int) (hp : ∀ k, g (k + p) = g k) (h : Nat) (i : Int) :
+    winMax g h (i + p) = winMax g h i := by
+  apply Rat.le_antisymm
+  · apply winMax_le; intro j h1 h2
+    have := le_winMax g h i j h1 h2
+    have e : i + p + j = (i + j) + p := by omega
+    rw [e, hp]; exact this
+  · apply winMax_le; intro j h1 h2
+    have := le_winMax g h (i + p) j h1 h2
+    have e : i + p + j = (i + j) + p := by omega
+    rw [e, hp] at this; exact this
+
+theorem winMax_mirror (g : Int → Rat) (hp : ∀ k, g (-1 - k) = g k) (h : Nat) (i : Int) :
+    winMax g h (-1 - i) = winMax g h i := by
+  apply Rat.le_antisymm
+  · apply winMax_le; intro j h1 h2
+    have := le_winMax g h i (-j) (by omega) (by omega)
+    have e : -1 - i + j = -1 - (i + -j) := by omega
+    rw [e, hp]; exact this
+  · apply winMax_le; intro j h1 h2
+    have := le_winMax g h (-1 - i) (-j) (by omega) (by omega)
+    have e : -1 - i + -j = -1 - (i + j) := by omega
+    rw [e, hp] at this; exact this
+
+/-! ### reflection index -/
+theorem reflIdx_lt (n : Nat) (hn : 0 < n) (i : Int) : reflIdx n i < n := by
+  unfold reflIdx
+  have h0 : (0:Int) ≤ i % (2 * (n:Int)) := Int.emod_nonneg _ (by omega)
+  have h1 : i % (2 * (n:Int)) < 2 * (n:Int) := Int.emod_lt_of_pos _ (by omega)
+  show (if i % (2 * (n:Int)) < n then (i % (2 * (n:Int))).toNat else (2 * (n : Int) - 1 - i % (2 * (n:Int))).toNat) < n
+  split <;> omega
+
+theorem reflIdx_of_lt (n : Nat) (i : Nat) (hi : i < n) : reflIdx n (i : Int) = i := by
+  unfold reflIdx
+  have e : (i : Int) % (2 * (n:Int)) = i := Int.emod_eq_of_lt (by omega) (by omega)
+  show (if (i:Int) % (2 * (n:Int)) < n then ((i:Int) % (2 * (n:Int))).toNat else (2 * (n : Int) - 1 - (i:Int) % (2 * (n:Int))).toNat) = i
+  rw [e]; split <;> omega
+
+theorem reflIdx_period (n : Nat) (k q : Int) : reflIdx n (k + 2 * (n:Int) * q) = reflIdx n k := by
+  have e : (k + 2 * (n:Int) * q).emod (2 * (n:Int)) = k.emod (2 * (n:Int)) :=
+    Int.add_mul_emod_self_left k (2 * (n:Int)) q
+  unfold reflIdx
+  simp only [e]
+
+theorem reflIdx_mirror (n : Nat) (hn : 0 < n) (k : Int) : reflIdx n (-1 - k) = reflIdx n k := by
+  have h0 : (0:Int) ≤ k % (2 * (n:Int)) := Int.emod_nonneg _ (by omega)
+  have h1 : k % (2 * (n:Int)) < 2 * (n:Int) := Int.emod_lt_of_pos _ (by omega)
+  have hk : k = 2 * (n:Int) * (k / (2 * (n:Int))) + k % (2 * (n:Int)) := (Int.mul_ediv_add_emod k _).symm
+  have e : (-1 - k) % (2 * (n:Int)) = 2 * (n:Int) - 1 - k % (2 * (n:Int)) := by
+    have e1 : -1 - k = (2 * (n:Int) - 1 - k % (2 * (n:Int))) + 2 * (n:Int) * (-(k / (2 * (n:Int))) - 1) := by
+      generalize k / (2 * (n:Int)) = q at hk
+      generalize k % (2 * (n:Int)) = m at hk
+      rw [Int.mul_sub, Int.mul_neg]
+      omega
+    rw [e1, Int.add_mul_emod_self_left]
+    exact Int.emod_eq_of_lt (by omega) (by omega)
+  unfold reflIdx
+  show (if (-1 - k) % (2 * (n:Int)) < n then ((-1 - k) % (2 * (n:Int))).toNat else (2 * (n : Int) - 1 - (-1 - k) % (2 * (n:Int))).toNat)
+     = (if k % (2 * (n:Int)) < n then (k % (2 * (n:Int))).toNat else (2 * (n : Int) - 1 - k % (2 * (n:Int))).toNat)
+  rw [e]
+  generalize k % (2 * (n:Int)) = m at h0 h1
+  split <;> split <;> omega
+
+theorem reflIdx_cases (n : Nat) (hn : 0 < n) (i : Int) :
+    ∃ q : Int, i = (reflIdx n i : Int) + 2 * (n:Int) * q ∨ i = (-1 - (reflIdx n i : Int)) + 2 * (n:Int) * q := by
+  have h0 : (0:Int) ≤ i % (2 * (n:Int)) := Int.emod_nonneg _ (by omega)
+  have h1 : i % (2 * (n:Int)) < 2 * (n:Int) := Int.emod_lt_of_pos _ (by omega)
+  have hk : i = 2 * (n:Int) * (i / (2 * (n:Int))) + i % (2 * (n:Int)) := (Int.mul_ediv_add_emod i _).symm
+  unfold reflIdx
+  show ∃ q : Int, i = ((if i % (2 * (n:Int)) < n then (i % (2 * (n:Int))).toNat else (2 * (n : Int) - 1 - i % (2 * (n:Int))).toNat : Nat) : Int) + 2 * (n:Int) * q
+    ∨ i = (-1 - ((if i % (2 * (n:Int)) < n then (i % (2 * (n:Int))).toNat else (2 * (n : Int) - 1 - i % (2 * (n:Int))).toNat : Nat) : Int)) + 2 * (n:Int) * q
+  generalize i / (2 * (n:Int)) = q at hk
+  generalize i % (2 * (n:Int)) = m at hk h0 h1
+  by_cases hm : m < n
+  · refine ⟨q, Or.inl ?_⟩
+    rw [if_pos hm]; omega
+  · refine ⟨q + 1, Or.inr ?_⟩
+    rw [if_neg hm, Int.mul_add]; omega
+
+theorem ext_period (f : List Rat) (k q : Int) : ext f (k + 2 * (f.length:Int) * q) = ext f k := by
+  unfold ext; rw [reflIdx_period]
+theorem ext_mirror (f : List Rat) (hf : f ≠ []) (k : Int) : ext f (-1 - k) = ext f k := by
+  unfold ext; rw [reflIdx_mirror _ (List.length_pos_iff.mpr hf)]
+
+/-- a reflected-periodic signal's window statistics are determined on `[0,n)` -/
+theorem win_reduce (F : Int → Rat) (n : Nat) (hn : 0 < n)
+    (hper : ∀ i q : Int, F (i + 2 * (n:Int) * q) = F i) (hmir : ∀ i : Int, F (-1 - i) = F i) (i : Int) :
+    F i = F (reflIdx n i : Int) := by
+  obtain ⟨q, hq | hq⟩ := reflIdx_cases n hn i
+  · rw [← hper (reflIdx n i : Int) q, ← hq]
+  · rw [← hmir (reflIdx n i : Int), ← hper (-1 - (reflIdx n i : Int)) q, ← hq]
+
+theorem getD_range_map (n : Nat) (φ : Nat → Rat) (j : Nat) (hj : j < n) :
+    ((List.range n).map φ).getD j 0 = φ j := by
+  simp [List.getD_eq_getElem?_getD, hj]
+
+theorem ext_erode (h : Nat) (f : List Rat) (hf : f ≠ []) (i : Int) : ext (erode h f) i = winMin (ext f) h i := by
+  have hn : 0 < f.length := List.length_pos_iff.mpr hf
+  have hr := reflIdx_lt f.length hn i
+  have e1 : ext (erode h f) i = winMin (ext f) h (reflIdx f.length i : Int) := by
+    show (erode h f).getD (reflIdx (erode h f).length i) 0 = _
+    rw [erode_length]; unfold erode
+    rw [getD_range_map _ _ _ hr]
+  rw [e1]
+  exact (win_reduce (winMin (ext f) h) f.length hn
+    (fun i q => winMin_translate _ _ (fun k => ext_period f k q) h i)
+    (fun i => winMin_mirror _ (ext_mirror f hf) h i) i).symm
+
+theorem ext_dilate (h : Nat) (f : List Rat) (hf : f ≠ []) (i : Int) : ext (dilate h f) i = winMax (ext f) h i := by
+  have hn : 0 < f.length := List.length_pos_iff.mpr hf
+  have hr := reflIdx_lt f.length hn i
+  have e1 : ext (dilate h f) i = winMax (ext f) h (reflIdx f.length i : Int) := by
+    show (dilate h f).getD (reflIdx (dilate h f).length i) 0 = _
+    rw [dilate_length]; unfold dilate
+    rw [getD_range_map _ _ _ hr]
+  rw [e1]
+  exact (win_reduce (winMax (ext f) h) f.length hn
+    (fun i q => winMax_translate _ _ (fun k => ext_period f k q) h i)
+    (fun i => winMax_mirror _ (ext_mirror f hf) h i) i).symm
+
+/-! ### lattice laws on infinite signals -/
+theorem winMin_mono (g g' : Int → Rat) (H : ∀ k, g k ≤ g' k) (h : Nat) (i : Int) :
+    winMin g h i ≤ winMin g' h i := by
+  apply le_winMin; intro j h1 h2
+  exact Rat.le_trans (winMin_le g h i j h1 h2) (H _)
+
+theorem winMax_mono (g g' : Int → Rat) (H : ∀ k, g k ≤ g' k) (h : Nat) (i : Int) :
+    winMax g h i ≤ winMax g' h i := by
+  apply winMax_le; intro j h1 h2
+  exact Rat.le_trans (H _) (le_winMax g' h i j h1 h2)
+
+theorem winMax_winMin_le (g : Int → Rat) (h : Nat) (i : Int) : winMax (winMin g h) h i ≤ g i := by
+  apply winMax_le; intro j h1 h2
+  have := winMin_le g h (i + j) (-j) (by omega) (by omega)
+  have e : i + j + -j = i := by omega
+  rw [e] at this; exact this
+
+theorem le_winMin_winMax (g : Int → Rat) (h : Nat) (i : Int) : g i ≤ winMin (winMax g h) h i := by
+  apply le_winMin; intro j h1 h2
+  have := le_winMax g h (i + j) (-j) (by omega) (by omega)
+  have e : i + j + -j = i := by omega
+  rw [e] at this; exact this
+
+theorem winMin_winMax_winMin (g : Int → Rat) (h : Nat) :
+    winMin (winMax (winMin g h) h) h = winMin g h := by
+  funext i
+  apply Rat.le_antisymm
+  · exact winMin_mono _ _ (winMax_winMin_le g h) h i
+  · exact le_winMin_winMax (winMin g h) h i
+
+theorem ext_opening (h : Nat) (f : List Rat) (hf : f ≠ []) :
+    ext (opening h f) = winMax (winMin (ext f) h) h := by
+  have hne : erode h f ≠ [] := by
+    intro e; have := erode_length h f; rw [e] at this
+    exact hf (List.length_eq_zero_iff.mp this.symm)
+  funext i
+  unfold opening
+  rw [ext_dilate h _ hne]
+  have : ext (erode h f) = winMin (ext f) h := funext (ext_erode h f hf)
+  rw [this]
+
+theorem ext_of_lt (f : List Rat) (i : Nat) (hi : i < f.length) : ext f (i : Int) = f.getD i 0 := by
+  unfold ext; rw [reflIdx_of_lt _ _ hi]
+
+theorem opening_eq (h : Nat) (f : List Rat) (hf : f ≠ []) :
+    opening h f = (List.range f.length).map fun (i : Nat) => winMax (winMin (ext f) h) h (i : Int) := by
+  have : ext (erode h f) = winMin (ext f) h := funext (ext_erode h f hf)
+  unfold opening dilate
+  rw [erode_length, this]
+
+theorem opening_nil (h : Nat) : opening h [] = [] := by
+  simp [opening, dilate, erode]
+
+theorem opening_le (h : Nat) (f : List Rat) : LeL (opening h f) f := by
+  refine ⟨opening_length h f, ?_⟩
+  intro i hi
+  rw [opening_length] at hi
+  have hf : f ≠ [] := by intro e; rw [e] at hi; simp at hi
+  rw [opening_eq h f hf, getD_range_map _ _ _ hi, ← ext_of_lt f i hi]
+  exact winMax_winMin_le _ _ _
+
+theorem opening_idem (h : Nat) (f : List Rat) : opening h (opening h f) = opening h f := by
+  by_cases hf : f = []
+  · subst hf; simp [opening_nil]
+  · have hne : opening h f ≠ [] := by
+      intro e; have := opening_length h f; rw [e] at this
+      exact hf (List.length_eq_zero_iff.mp this.symm)
+    rw [opening_eq h (opening h f) hne, opening_length, ext_opening h f hf, winMin_winMax_winMin,
+      ← opening_eq h f hf]
+
+/-! ### shifts -/
+theorem foldl_min_shift (l : List Nat) (a : Rat) (b : Nat → Rat) (c : Rat) :
+    l.foldl (fun acc k => min acc (b k + c)) (a + c) = l.foldl (fun acc k => min acc (b k)) a + c := by
+  induction l generalizing a with
+  | nil => rfl
+  | cons x xs ih =>
+    simp only [List.foldl]
+    have e : min (a + c) (b x + c) = min a (b x) + c := by grind
+    rw [e, ih]
+
+theorem foldl_max_shift (l : List Nat) (a : Rat) (b : Nat → Rat) (c : Rat) :
+    l.foldl (fun acc k => max acc (b k + c)) (a + c) = l.foldl (fun acc k => max acc (b k)) a + c := by
+  induction l generalizing a with
+  | nil => rfl
+  | cons x xs ih =>
+    simp only [List.foldl]
+    have e : max (a + c) (b x + c) = max a (b x) + c := by grind
+    rw [e, ih]
+
+theorem winMin_shift (g : Int → Rat) (c : Rat) (h : Nat) (i : Int) :
+    winMin (fun k => g k + c) h i = winMin g h i + c := by
+  unfold winMin winFold
+  exact foldl_min_shift _ _ (fun k => g (i - (h:Int) + 1 + (k:Int))) c
+
+theorem winMax_shift (g : Int → Rat) (c : Rat) (h : Nat) (i : Int) :
+    winMax (fun k => g k + c) h i = winMax g h i + c := by
+  unfold winMax winFold
+  exact foldl_max_shift _ _ (fun k => g (i - (h:Int) + 1 + (k:Int))) c
+
+theorem ext_shift (f : List Rat) (hf : f ≠ []) (c : Rat) :
+    ext (f.map (· + c)) = fun k => ext f k + c := by
+  funext k
+  have hn : 0 < f.length := List.length_pos_iff.mpr hf
+  have hr := reflIdx_lt f.length hn k
+  show (f.map (· + c)).getD (reflIdx (f.map (· + c)).length k) 0 = f.getD (reflIdx f.length k) 0 + c
+  rw [List.length_map]
+  simp [List.getD_eq_getElem?_getD, hr]
+
+theorem erode_shift (h : Nat) (f : List Rat) (c : Rat) :
+    erode h (f.map (· + c)) = (erode h f).map (· + c) := by
+  by_cases hf : f = []
+  · subst hf; simp [erode]
+  · unfold erode
+    rw [ext_shift f hf c, List.length_map, List.map_map]
+    apply List.map_congr_left
+    intro i _
+    exact winMin_shift _ _ _ _
+
+theorem dilate_shift (h : Nat) (f : List Rat) (c : Rat) :
+    dilate h (f.map (· + c)) = (dilate h f).map (· + c) := by
+  by_cases hf : f = []
+  · subst hf; simp [dilate]
+  · unfold dilate
+    rw [ext_shift f hf c, List.length_map, List.map_map]
+    apply List.map_congr_left
+    intro i _
+    exact winMax_shift _ _ _ _
+
 theorem opening_shift (h : Nat) (f : List Rat) (c : Rat) :
-    opening h (f.map (· + c)) = (opening h f).map (· + c) := by sorry
-theorem mor_le (h : Nat) (f : List Rat) : LeL (mor h f) f := by sorry
-theorem mor_shift (h : Nat) (f : List Rat) (c : Rat) : mor h (f.map (· + c)) = (mor h f).map (· + c) := by sorry
-theorem imor_le (h : Nat) (y : List Rat) (k : Nat) : LeL (imorIter h y k) y := by sorry
+    opening h (f.map (· + c)) = (opening h f).map (· + c) := by
+  unfold opening; rw [erode_shift, dilate_shift]
 
-theorem snipPass_le (order hwL hwR : Nat) (b : List Rat) (i : Nat) : LeL (snipPass order hwL hwR b i) b := by sorry
+theorem avgOfOpening_shift (h : Nat) (f : List Rat) (c : Rat) :
+    avgOfOpening h (f.map (· + c)) = (avgOfOpening h f).map (· + c) := by
+  unfold avgOfOpening
+  rw [erode_shift, dilate_shift, List.zipWith_map, List.map_zipWith]
+  congr 1
+  funext a b
+  grind
+
+theorem avgOpening_shift (h : Nat) (f : List Rat) (c : Rat) :
+    avgOpening h (f.map (· + c)) = (avgOpening h f).map (· + c) := by
+  unfold avgOpening; rw [opening_shift, avgOfOpening_shift]
+
+theorem mor_shift (h : Nat) (f : List Rat) (c : Rat) : mor h (f.map (· + c)) = (mor h f).map (· + c) := by
+  unfold mor
+  rw [opening_shift, avgOpening_shift, List.zipWith_map, List.map_zipWith]
+  congr 1
+  funext a b
+  grind
+
+/-! ### order -/
+theorem avgOpening_length (h : Nat) (f : List Rat) : (avgOpening h f).length = f.length := by
+  simp [avgOpening, avgOfOpening, erode_length, dilate_length, opening_length]
+
+theorem LeL_refl (a : List Rat) : LeL a a := ⟨rfl, fun _ _ => Rat.le_refl⟩
+
+theorem LeL_trans {a b c : List Rat} (h1 : LeL a b) (h2 : LeL b c) : LeL a c :=
+  ⟨h1.1.trans h2.1, fun i hi => Rat.le_trans (h1.2 i hi) (h2.2 i (h1.1 ▸ hi))⟩
+
+theorem zipWith_min_LeL_left (a b : List Rat) (hl : a.length = b.length) : LeL (List.zipWith min a b) a := by
+  refine ⟨by simp [hl], ?_⟩
+  intro i hi
+  simp only [List.length_zipWith] at hi
+  have ha : i < a.length := by omega
+  have hb : i < b.length := by omega
+  simp only [List.getD_eq_getElem?_getD, List.getElem?_zipWith, List.getElem?_eq_getElem ha,
+    List.getElem?_eq_getElem hb]
+  grind
+
+theorem mor_le (h : Nat) (f : List Rat) : LeL (mor h f) f := by
+  unfold mor
+  exact LeL_trans (zipWith_min_LeL_left _ _ (by rw [opening_length, avgOpening_length])) (opening_le h f)
+
+theorem imorIter_length (h : Nat) (y : List Rat) (k : Nat) : (imorIter h y k).length = y.length := by
+  cases k with
+  | zero => rfl
+  | succ k => simp [imorIter, imorStep, avgOpening_length, imorIter_length h y k]
+
+theorem imor_le (h : Nat) (y : List Rat) (k : Nat) : LeL (imorIter h y k) y := by
+  cases k with
+  | zero => exact LeL_refl y
+  | succ k =>
+    show LeL (List.zipWith min y (avgOpening h (imorIter h y k))) y
+    exact zipWith_min_LeL_left _ _ (by rw [avgOpening_length, imorIter_length])
+
+/-! ### snip -/
+theorem snipPass_length (order hwL hwR : Nat) (b : List Rat) (i : Nat) :
+    (snipPass order hwL hwR b i).length = b.length := by
+  simp [snipPass]
+
+theorem snipPass_le (order hwL hwR : Nat) (b : List Rat) (i : Nat) : LeL (snipPass order hwL hwR b i) b := by
+  refine ⟨snipPass_length _ _ _ _ _, ?_⟩
+  intro j hj
+  rw [snipPass_length] at hj
+  unfold snipPass
+  rw [getD_range_map _ _ _ hj]
+  by_cases hg : i ≤ j ∧ j + i < b.length
+  · rw [if_pos hg]
+    show (if b.getD j 0 > _ then _ else b.getD j 0) ≤ b.getD j 0
+    split <;> grind
+  · rw [if_neg hg]; exact Rat.le_refl
+
+theorem snipFold_length (order hwL hwR : Nat) (l : List Nat) (b : List Rat) :
+    (l.foldl (snipPass order hwL hwR) b).length = b.length := by
+  induction l generalizing b with
+  | nil => rfl
+  | cons x xs ih => simp only [List.foldl]; rw [ih, snipPass_length]
+
+theorem snipFold_le (order hwL hwR : Nat) (l : List Nat) (b : List Rat) :
+    LeL (l.foldl (snipPass order hwL hwR) b) b := by
+  induction l generalizing b with
+  | nil => exact LeL_refl b
+  | cons x xs ih => simp only [List.foldl]; exact LeL_trans (ih _) (snipPass_le _ _ _ _ _)
+
 theorem snipCore_length (order hwL hwR : Nat) (dec : Bool) (padded : List Rat) :
-    (snipCore order hwL hwR dec padded).length = padded.length - 2 * max hwL hwR := by sorry
+    (snipCore order hwL hwR dec padded).length = padded.length - 2 * max hwL hwR := by
+  unfold snipCore
+  simp only [List.length_take, List.length_drop, snipFold_length]
+  omega
+
 theorem snipCore_le (order hwL hwR : Nat) (dec : Bool) (pl data pr : List Rat)
     (hl : pl.length = max hwL hwR) (hr : pr.length = max hwL hwR) :
-    LeL (snipCore order hwL hwR dec (pl ++ data ++ pr)) data := by sorry
+    LeL (snipCore order hwL hwR dec (pl ++ data ++ pr)) data := by
+  have hlen : (snipCore order hwL hwR dec (pl ++ data ++ pr)).length = data.length := by
+    rw [snipCore_length]; simp only [List.length_append]; omega
+  refine ⟨hlen, ?_⟩
+  intro i hi
+  rw [hlen] at hi
+  have hfold := snipFold_le order hwL hwR (snipSchedule (max hwL hwR) dec) (pl ++ data ++ pr)
+  have hfl := snipFold_length order hwL hwR (snipSchedule (max hwL hwR) dec) (pl ++ data ++ pr)
+  have hi2 : max hwL hwR + i < (pl ++ data ++ pr).length := by
+    simp only [List.length_append]; omega
+  have key := hfold.2 (max hwL hwR + i) (by rw [hfl]; exact hi2)
+  have e1 : (snipCore order hwL hwR dec (pl ++ data ++ pr)).getD i 0
+      = ((snipSchedule (max hwL hwR) dec).foldl (snipPass order hwL hwR) (pl ++ data ++ pr)).getD (max hwL hwR + i) 0 := by
+    unfold snipCore
+    simp only [List.getD_eq_getElem?_getD, List.getElem?_take, List.getElem?_drop, hfl]
+    rw [if_pos (by simp only [List.length_append]; omega)]
+  have e2 : (pl ++ data ++ pr).getD (max hwL hwR + i) 0 = data.getD i 0 := by
+    simp only [List.getD_eq_getElem?_getD]
+    rw [List.getElem?_append_left (by simp only [List.length_append]; omega),
+      List.getElem?_append_right (by omega)]
+    congr 2; omega
+  rw [e1, ← e2]; exact key
+
+theorem snipFilter_shift (order : Nat) (g g' : Int → Rat) (j : Int) (il ir : Nat) (c : Rat)
+    (HL : ∀ d : Nat, d ≤ il → g' (j - (d : Int)) = g (j - (d : Int)) + c)
+    (HR : ∀ d : Nat, d ≤ ir → g' (j + (d : Int)) = g (j + (d : Int)) + c) :
+    snipFilter order g' j il ir = snipFilter order g j il ir + c := by
+  have l11 := HL (1 * il / 1) (by omega)
+  have l12 := HL (1 * il / 2) (by omega)
+  have l23 := HL (2 * il / 3) (by omega)
+  have l13 := HL (1 * il / 3) (by omega)
+  have l34 := HL (3 * il / 4) (by omega)
+  have l14 := HL (1 * il / 4) (by omega)
+  have r11 := HR (1 * ir / 1) (by omega)
+  have r12 := HR (1 * ir / 2) (by omega)
+  have r23 := HR (2 * ir / 3) (by omega)
+  have r13 := HR (1 * ir / 3) (by omega)
+  have r34 := HR (3 * ir / 4) (by omega)
+  have r14 := HR (1 * ir / 4) (by omega)
+  unfold snipFilter
+  simp only [l11, l12, l23, l13, l34, l14, r11, r12, r23, r13, r34, r14]
+  generalize g (j - ((1 * il / 1 : Nat) : Int)) = a1
+  generalize g (j - ((1 * il / 2 : Nat) : Int)) = a2
+  generalize g (j - ((2 * il / 3 : Nat) : Int)) = a3
+  generalize g (j - ((1 * il / 3 : Nat) : Int)) = a4
+  generalize g (j - ((3 * il / 4 : Nat) : Int)) = a5
+  generalize g (j - ((1 * il / 4 : Nat) : Int)) = a6
+  generalize g (j + ((1 * ir / 1 : Nat) : Int)) = b1
+  generalize g (j + ((1 * ir / 2 : Nat) : Int)) = b2
+  generalize g (j + ((2 * ir / 3 : Nat) : Int)) = b3
+  generalize g (j + ((1 * ir / 3 : Nat) : Int)) = b4
+  generalize g (j + ((3 * ir / 4 : Nat) : Int)) = b5
+  generalize g (j + ((1 * ir / 4 : Nat) : Int)) = b6
+  have f2 : (a1 + c + (b1 + c)) / 2 = (a1 + b1) / 2 + c := by grind
+  have f4 : (-(a1 + c + (b1 + c)) + 4 * (a2 + c + (b2 + c))) / 6 = (-(a1 + b1) + 4 * (a2 + b2)) / 6 + c := by grind
+  have f6 : (a1 + c + (b1 + c) - 6 * (a3 + c + (b3 + c)) + 15 * (a4 + c + (b4 + c))) / 20
+      = (a1 + b1 - 6 * (a3 + b3) + 15 * (a4 + b4)) / 20 + c := by grind
+  have f8 : (-(a1 + c + (b1 + c)) + 8 * (a5 + c + (b5 + c)) - 28 * (a2 + c + (b2 + c)) + 56 * (a6 + c + (b6 + c))) / 70
+      = (-(a1 + b1) + 8 * (a5 + b5) - 28 * (a2 + b2) + 56 * (a6 + b6)) / 70 + c := by grind
+  rw [f2, f4, f6, f8]
+  have mx : ∀ x y : Rat, max (x + c) (y + c) = max x y + c := by intro x y; grind
+  by_cases h2 : order > 2 <;> by_cases h4 : order > 4 <;> by_cases h6 : order > 6 <;>
+    simp only [h2, h4, h6, if_true, if_false, mx]
+
+theorem getD_map_add (b : List Rat) (c : Rat) (j : Nat) (hj : j < b.length) :
+    (b.map (· + c)).getD j 0 = b.getD j 0 + c := by
+  simp [List.getD_eq_getElem?_getD, hj]
+
+theorem snipPass_shift (order hwL hwR : Nat) (b : List Rat) (c : Rat) (i : Nat) :
+    snipPass order hwL hwR (b.map (· + c)) i = (snipPass order hwL hwR b i).map (· + c) := by
+  unfold snipPass
+  rw [List.length_map, List.map_map]
+  apply List.map_congr_left
+  intro j hj
+  have hj' : j < b.length := List.mem_range.mp hj
+  simp only [Function.comp]
+  rw [getD_map_add b c j hj']
+  by_cases hg : i ≤ j ∧ j + i < b.length
+  · rw [if_pos hg, if_pos hg]
+    have hf : snipFilter order (fun k : Int => (b.map (· + c)).getD k.toNat 0) (j : Int) (min i hwL) (min i hwR)
+        = snipFilter order (fun k : Int => b.getD k.toNat 0) (j : Int) (min i hwL) (min i hwR) + c := by
+      apply snipFilter_shift
+      · intro d hd
+        exact getD_map_add b c _ (by omega)
+      · intro d hd
+        exact getD_map_add b c _ (by omega)
+    simp only [hf]
+    generalize snipFilter order (fun k : Int => b.getD k.toNat 0) (j : Int) (min i hwL) (min i hwR) = F
+    generalize b.getD j 0 = y
+    by_cases hy : y > F
+    · have : y + c > F + c := by grind
+      rw [if_pos hy, if_pos this]
+    · have : ¬ (y + c > F + c) := by grind
+      rw [if_neg hy, if_neg this]
+  · rw [if_neg hg, if_neg hg]
+
+theorem snipFold_shift (order hwL hwR : Nat) (l : List Nat) (b : List Rat) (c : Rat) :
+    l.foldl (snipPass order hwL hwR) (b.map (· + c)) = (l.foldl (snipPass order hwL hwR) b).map (· + c) := by
+  induction l generalizing b with
+  | nil => rfl
+  | cons x xs ih => simp only [List.foldl]; rw [snipPass_shift, ih]
+
 theorem snipCore_shift (order hwL hwR : Nat) (dec : Bool) (padded : List Rat) (c : Rat) :
-    snipCore order hwL hwR dec (padded.map (· + c)) = (snipCore order hwL hwR dec padded).map (· + c) := by sorry
+    snipCore order hwL hwR dec (padded.map (· + c)) = (snipCore order hwL hwR dec padded).map (· + c) := by
+  unfold snipCore
+  simp only [snipFold_shift, List.length_map, List.map_take, List.map_drop]
 
 end PbVerif.Lemmas
